@@ -199,7 +199,7 @@ func (s *plainSrv) Listen() (net.Listener, error) {
 		return nil, err
 	}
 	emit(s.gen, "listen", s.addr)
-	return ln, nil
+	return lib.SafeListener{TCPListener: ln.(*net.TCPListener)}, nil
 }
 
 func (s *plainSrv) Serve(ln net.Listener) error {
@@ -240,6 +240,9 @@ func (s *gracefulSrv) WrapListener(ln net.Listener) net.Listener {
 		return nil
 	}
 	emit(s.gen, "inherit", s.addr)
+	if tl, ok := ln.(*net.TCPListener); ok {
+		return lib.SafeListener{TCPListener: tl}
+	}
 	return ln
 }
 
